@@ -1,4 +1,5 @@
 import TcVerif.Props.C05
+import TcVerif.Proofs.SrcGetUuid
 /-!
 # C07 — Undo restores the exact prior state and withdraws the changes from sync
 
@@ -98,5 +99,9 @@ example : accurateL emptyDB
      .update 1 "d" none (some "x") 3, .delete 1 [("d", "x")]] := by
   simp [accurateL, accurate, applyLocal, Op.toSync, applyO, apply, emptyDB, setTask, setProp, ofAssoc, emptyTask]
   funext k; simp only [setProp, emptyTask]; split <;> simp_all
+
+/-- where an undo stops is decided by the source's `Operation::is_undo_point`, translated from
+    `src/operation.rs` on every run -/
+theorem C07_source_is_undo_point (o : Op) : Src.isUndoPoint o = o.isUndoPoint := src_isUndoPoint_eq o
 
 end Tc
